@@ -9,7 +9,8 @@
      affine ops mean L z         mean + L z
    A source iterator is the list of numbers it will still yield; every draw returns the rest. *)
 From Coq Require Import List Arith NArith ZArith Reals.
-From EasyML Require Import Base.Sx Model.Num Model.Stats Model.Gaussian Proofs.C14P Proofs.RealOps Proofs.C17P Proofs.C17R.
+From EasyML Require Import Base.Sx Model.Num Model.Stats Model.Gaussian Proofs.C14P Proofs.RealOps Proofs.C17P Proofs.C17R Proofs.C17Chol.
+From EasyML Require Model.Decomp Proofs.C08P5.
 Import ListNotations.
 Local Close Scope R_scope.
 Local Open Scope nat_scope.
@@ -104,6 +105,51 @@ Theorem C17_mv_draw : forall R (ops : numops R) (mean : list R) (cov : list (lis
                               length (nth r rows []) = n))).
 Proof. exact @mv_draw_correct. Qed.
 
+(* the Cholesky routine transcribed in Model/Gaussian.v for the draws is, on EVERY input, the
+   function of C08's transcription Model/Decomp.v *)
+Theorem C17_cholesky_same : forall R (ops : numops R) (a : list (list R)),
+  Gaussian.cholesky ops a = Decomp.cholesky ops a.
+Proof. exact @cholesky_same. Qed.
+
+(* hence (C08_cholesky_sound) a PRESENT multivariate draw uses a genuine Cholesky factor: under C08's
+   hypotheses `C08P5.ordered_sqrt_field ops lt` (ring laws, (1/x) x = 1, `<=` decides the order,
+   sqrt x sqrt x = x and 0 < sqrt x for 0 < x) there is L with `C08P5.cholesky_factor ops lt cov L`
+   = L is n x n, zero above the diagonal, positive on it, (L L^T)[i][j] = cov[i][j] for j <= i and
+   — for a symmetric covariance — for all i, j; and every row of the result is mean + L z_r *)
+Theorem C17_mv_draw_genuine_factor : forall R (ops : numops R) (lt : R -> R -> Prop)
+    (mean : list R) (cov : list (list R)) (src : list R) (k ns nf : nat) d0 d1 rows rest,
+  C08P5.ordered_sqrt_field ops lt ->
+  draw_tensor_samples ops mean cov src (N.of_nat k) ns nf = (Some (d0, d1, rows), rest) ->
+  exists L,
+    Gaussian.cholesky ops cov = Some L /\ Decomp.cholesky ops cov = Some L /\
+    C08P5.cholesky_factor ops lt cov L /\
+    0 < k /\ ns <> nf /\
+    d0 = (ns, N.of_nat k) /\ d1 = (nf, N.of_nat (length mean)) /\
+    rest = skipn (k * width (length mean)) src /\ length rows = k /\
+    forall r, r < k -> nth r rows [] = affine ops mean L (std_row ops (length mean) src r).
+Proof. exact @mv_draw_genuine_factor. Qed.
+
+(* over the reals, sample 2i / 2i+1 of a present draw IS the documented Box-Muller image of the
+   i-th source pair (u, v), scaled by the standard deviation sqrt(variance) and shifted by the mean;
+   for u in (0, 1] the radicand -2 ln u is non-negative (sqrt is its genuine root) and for a
+   variance >= 0 the scale squares to the variance *)
+Theorem C17_draw_values_real : forall (mean var : R) (src : list R) (k : nat) (l rest : list R),
+  draw Rops (mkGaussian mean var) src (N.of_nat k) = (Some l, rest) ->
+  (forall i : nat,
+     let u := nth (2 * i) src 0%R in
+     let v := nth (2 * i + 1) src 0%R in
+     (2 * i < k ->
+        nth (2 * i) l 0%R = (sqrt (-2 * ln u) * cos (2 * PI * v) * sqrt var + mean)%R) /\
+     (2 * i + 1 < k ->
+        nth (2 * i + 1) l 0%R = (sqrt (-2 * ln u) * sin (2 * PI * v) * sqrt var + mean)%R)) /\
+  (forall u : R, (0 < u <= 1)%R ->
+     (0 <= -2 * ln u)%R /\ (sqrt (-2 * ln u) * sqrt (-2 * ln u) = -2 * ln u)%R) /\
+  ((0 <= var)%R -> (sqrt var * sqrt var = var)%R).
+Proof.
+  intros mean var src k l rest H. split; [exact (draw_values_real mean var src k l rest H)|].
+  split; [exact box_muller_radicand | exact (standard_deviation_squared var)].
+Qed.
+
 (* the matrix variant is the tensor variant on the mean's sole column, for any two distinct names *)
 Theorem C17_mv_matrix_tensor_agree : forall R (ops : numops R) (meanm cov : list (list R))
     (src : list R) (k ns nf : nat), ns <> nf ->
@@ -150,5 +196,8 @@ Print Assumptions C17_draw_len.
 Print Assumptions C17_draw_consumption.
 Print Assumptions C17_draw_values.
 Print Assumptions C17_mv_draw.
+Print Assumptions C17_cholesky_same.
+Print Assumptions C17_mv_draw_genuine_factor.
+Print Assumptions C17_draw_values_real.
 Print Assumptions C17_mv_matrix_tensor_agree.
 Print Assumptions C17_mv_constructors.
